@@ -17,6 +17,8 @@ CHECKS = {
             "Every spelling generated from a known component tuple, and every token-language string the strict recogniser accepts, is parsed by the real library and the reported components are compared with the expected ones, for the three parsable instantiations.", "6/C02"),
     "C03": ("runtime monitoring: independent renderer (reference model R2) compared with Display on every observed PURL; exhaustive over all Unicode scalars x 5 positions and ASCII pairs",
             "to_string() of every PURL produced is compared with a renderer written from the property's sentence and fed only from the accessors; complete for single scalars and ASCII pairs in each position.", "6/C03"),
+    "C04": ("runtime monitoring: invariant predicate evaluated on every PURL value obtained from parser and builder (5 built-in type parameters) and from the 3072-member user-shape family whose hook edits the parts",
+            "The invariant of the statement is checked on each value the real library hands out, including values whose parts were rewritten by hostile finish hooks; stored parts are inspected through into_builder().", "6/C04"),
     "C05": ("runtime monitoring: strict recogniser R1 (never-accepted clause, exhaustive token language) + single-fault injection into legal spellings (error clause), injector cross-checked by R1",
             "Every string with a listed defect that the workload produces is fed to the real parser; acceptance, or a wrong error variant when the defect is provably the only one, is a violation. Complete for the bounded token language.", "6/C05"),
     "C07": ("runtime monitoring: independent raw-piece scanner + own percent decoder compared with reported namespace/subpath segments; exhaustive piece sequences (17 piece kinds, <=4/5 pieces)",
@@ -25,6 +27,14 @@ CHECKS = {
             "Both entry points are executed for every (type, name) case and judged against the rule model; typed and untyped parses of the same string are compared field by field.", "6/C08"),
     "C09": ("runtime monitoring: lock-step builder model (R7) over exhaustive short call histories and random histories; parser as inverse; swapped-call replays",
             "Each history runs on the real builder and on the model; build outcome, accessors, re-parse of the string form and commutation of adjacent calls on different fields are judged per history.", "6/C09"),
+    "C10": ("runtime monitoring: metamorphic oracle into_builder().build() == identity on every parsed and built value, 5 type parameters, all 7 package types",
+            "Every value of the workload is converted back into a builder and re-built by the real library; equality and identical string are judged per value.", "6/C10"),
+    "C13": ("runtime monitoring: N-version differential comparison of the built-in type parameters (parser: String vs SmallString on the exhaustive token language; builder: String vs Cow::Borrowed vs Cow::Owned vs SmallString incl. invalid type strings)",
+            "The same input is executed under every built-in type parameter and complete outcomes (setter results, Ok/Err, accessors, canonical string) are compared.", "6/C13"),
+    "C14": ("runtime monitoring: online trace-specification checker over the call events of a 3072-member family of harness-side PurlShape+FromStr implementations, plus value model post(edit(seen))",
+            "Each run's event trace (conversion / hook calls with arguments) is checked against the call protocol, and the result against what the hook wrote followed by the generic post-checks.", "6/C14"),
+    "C19": ("runtime monitoring: algebraic monitor over batches of near-colliding values (==, Hash, Ord, partial_cmp, antisymmetry, sorted-order transitivity, HashSet/BTreeSet/string-set sizes), 4 type parameters",
+            "All ordered pairs of each batch are compared through the real trait implementations and judged against canonical-string equality; batches are built from spellings, twins and one-separator-moved variants.", "6/C19"),
 }
 
 NOT_YET = {}
